@@ -166,6 +166,10 @@ def render(case):
                     [Par(n, KWO, d) for n, d in dd['kwo']] + [Par('kwargs', VK)])
         loc = ', '.join('%r: %s' % (n, n) for n, d in dd['pos'] + dd['kwo'])
         consts = ''.join('%d, ' % (700 + j) for j in range(dd['n']))
+        if dd.get('same_as_previous') and i > 0:
+            # the very same decorator applied twice in a row
+            src += 'D%d = D%d\nd%d = d%d\n' % (i, i - 1, i, i - 1)
+            continue
         if dd['kind'] == 'classic':
             src += ('def D%d(f):\n    @functools.wraps(f)\n    def _classic%d(*args, **kwargs):\n        return f(*args, **kwargs)\n    return _classic%d\n' % (i, i, i))
             continue
@@ -210,6 +214,10 @@ def render(case):
         # falsy: instances that are false in a boolean context (an empty container) are instances all the same
         falsy = '    def __len__(self):\n        return 0\n' if case.get('falsy') else ''
         src += 'class K(object):\n    tag = "inst"\n' + falsy + ''.join('    ' + l for l in (stat + decos + fn.replace('def plain(', 'def m(')).splitlines(True))
+        # instances are value objects (all equal, same hash); the method was bound on an earlier, equal instance before and that
+        # bound object is still held when it is bound on INST
+        src += ('K.__eq__ = lambda self, other: isinstance(other, K)\nK.__hash__ = lambda self: 1\n'
+                'EARLIER = K()\nEARLIER.tag = "earlier"\nHELD = EARLIER.m\n')
         src += 'INST = K()\nTARGETS = [("instance", INST.m, None), ("class", K.m, %r)]\n' % (case['selfname'] if case['placement'] == 'method' else None)
     src += 'DECOS = [%s]\n' % ', '.join('d%d' % i for i, dd in enumerate(case['decos']) if dd['kind'] != 'classic')
     return src
@@ -487,6 +495,14 @@ def shared_name_cases():
         for pos, kwo in (([['p', None]], []), ([], [['k', None]]), ([], [['k', '2']]), ([['p', '1']], [['k', '2']])):
             for placement in ('function', 'method'):
                 decos = [{'kind': k, 'pos': [list(x) for x in pos], 'kwo': [list(x) for x in kwo], 'n': 0, 'names': []} for k in kinds]
+                out.append({'what': 'stack', 'decos': decos, 'spec': [['x', POK, None, None], ['y', POK, '1', None]], 'placement': placement,
+                            'selfname': 'self', 'stepwise': False, 'falsy': False, 'wrapped': 'plain'})
+    # the same decorator object twice in a row (with and without parameters of its own)
+    for kind in ('decorator', 'wrapper_decorator'):
+        for pos, kwo in (([], []), ([], [['k', '2']])):
+            for placement in ('function', 'method'):
+                decos = [{'kind': kind, 'pos': [list(x) for x in pos], 'kwo': [list(x) for x in kwo], 'n': 0, 'names': []} for _ in range(2)]
+                decos[1]['same_as_previous'] = True
                 out.append({'what': 'stack', 'decos': decos, 'spec': [['x', POK, None, None], ['y', POK, '1', None]], 'placement': placement,
                             'selfname': 'self', 'stepwise': False, 'falsy': False, 'wrapped': 'plain'})
     return out
